@@ -578,7 +578,7 @@ def r14_11_zigzag_pair(ctx: Ctx) -> RuleResult:
     - whatever the expressions look like."""
     from ..kit import eval_int_expr, own_nodes
 
-    rr = RuleResult("R14.11", "zigzag coding of signed counts: decoder(encoder(c)) == c and encoder(c) >= 0 on [-70000, 70000] and the 32-bit edges", min_instances=1)
+    rr = RuleResult("R14.11", "zigzag coding of signed counts: decoder(encoder(c)) == c and encoder(c) >= 0 on [-70000, 70000], at the 32-bit edges and - unless the writer rejects them - beyond", min_instances=1)
     M = ctx.M
     w = M.func("_DateTimeZoneWriter.write_signed_count", required=True)
     r = M.func("_DateTimeZoneReader.read_signed_count", required=True)
@@ -602,11 +602,19 @@ def r14_11_zigzag_pair(ctx: Ctx) -> RuleResult:
     if rv is None:
         rr.fail(r.qual, "read_signed_count does not read one varint into a local", ctx.loc(r))
         return rr
-    sample = list(range(-70000, 70001)) + [s * (1 << k) + d for k in range(17, 32) for s in (1, -1) for d in (-1, 0, 1)]
+    sample = list(range(-70000, 70001)) + [s * (1 << k) + d for k in range(17, 32) for s in (1, -1) for d in (-1, 0, 1)] + [s * (1 << k) + d for k in (32, 33, 40, 63, 64) for s in (1, -1) for d in (-1, 0, 1)]
+    # the domain is what the writer ACCEPTS: Python integers are unbounded, so without an argument check of its own the writer
+    # accepts 2**31, for which `count >> 31` is no longer the sign and the decoder returns another number
+    lo_ok, hi_ok = -float("inf"), float("inf")
+    for n in own_nodes(w.node):
+        if isinstance(n, ast.Call) and unparse(n.func).endswith("_check_argument_range") and len(n.args) >= 4 and isinstance(n.args[1], ast.Name) and n.args[1].id == pw and n.lineno < wcalls[0].lineno:
+            a, b = M.fold(n.args[2], w.cls, w.mod), M.fold(n.args[3], w.cls, w.mod)
+            if isinstance(a, int) and isinstance(b, int):
+                lo_ok, hi_ok = max(lo_ok, a), min(hi_ok, b)
     bad = None
     for cval in sample:
-        if not -(1 << 31) <= cval <= (1 << 31) - 1:
-            continue
+        if not lo_ok <= cval <= hi_ok:
+            continue  # rejected by the writer's own argument check
         e = eval_int_expr(enc, {pw: cval}, lambda x: M.fold(x, w.cls, w.mod))
         if e is None:
             bad = (cval, "encoder expression not evaluable")
